@@ -60,6 +60,7 @@ type decompressor struct {
 	err           error
 	peekSize      int
 	eof           bool
+	srcErr        error // error the source returned together with, or after, its last bytes
 }
 
 func (r *decompressor) Reset(under io.Reader, _ []byte) error {
@@ -76,6 +77,7 @@ func (r *decompressor) Reset(under io.Reader, _ []byte) error {
 
 	r.peekSize = 0
 	r.eof = false
+	r.srcErr = nil
 	r.err = nil
 	// forget the previous stream's output: nothing of it may be delivered or
 	// referenced by the next stream
@@ -116,14 +118,41 @@ func (f *decompressor) step() (err error) {
 	if state.phase == phaseFinish {
 		return io.EOF
 	}
+	if state.phase == phaseStreamEnd {
+		// the final block is decoded and its output delivered: report the end
+		// without asking the source for anything more
+		state.phase = phaseFinish
+		if state.input != nil {
+			discardSize := f.peekSize - len(state.input) - int(state.bitsLen/8)
+			if discardSize > 0 {
+				if _, err := f.rBuf.Discard(discardSize); err != nil {
+					return err
+				}
+			}
+			state.input = nil
+		}
+		return io.EOF
+	}
 
 	if state.input == nil {
-		state.input, err = f.rBuf.Peek(f.rBuf.Size())
-		f.peekSize = len(state.input)
-		if err != nil && err != bufio.ErrBufferFull && err != io.EOF {
-			return err
+		// The whole bytes still held in the bit buffer have not been discarded
+		// from rBuf yet. Ask the source only for what is needed to make
+		// progress (one byte beyond those), then decode whatever is buffered:
+		// waiting for a full buffer would withhold data already received.
+		need := int(state.bitsLen/8) + 1
+		if f.rBuf.Buffered() < need && f.srcErr == nil {
+			if _, err = f.rBuf.Peek(need); err != nil && err != bufio.ErrBufferFull {
+				f.srcErr = err
+			}
 		}
-		f.eof = err == io.EOF
+		state.input, _ = f.rBuf.Peek(f.rBuf.Buffered())
+		f.peekSize = len(state.input)
+		if f.srcErr != nil && f.srcErr != io.EOF && len(state.input) < need {
+			// nothing new to decode and the source has failed
+			state.input = nil
+			return f.srcErr
+		}
+		f.eof = f.srcErr == io.EOF
 		state.input = state.input[f.state.bitsLen/8:]
 	}
 	f.readPos = f.writePos
